@@ -37,6 +37,7 @@ Op ==
     \/ "ins_big" \in OpSet /\ S.nv < MaxIns /\ \E k \in Keys : KeyLoc[k] = "default" /\ InsertBig(k)
     \/ "rem" \in OpSet /\ \E k \in Keys : Remove(k)
     \/ "get" \in OpSet /\ \E k \in Keys : Get(k)
+    \/ "get_start" \in OpSet /\ ((\E k \in Keys : GetStart(k)) \/ GetFinish)
     \/ "sload" \in OpSet /\ \E k \in Keys : SLoad(k)
     \/ "fetch" \in OpSet /\ S.nv < MaxIns /\ \E k \in Keys : Fetch(k)
     \/ "probation" \in OpSet /\ MarkProbation
